@@ -201,8 +201,52 @@ fn hist_json(seed: &str, hist: &[Op]) -> Value {
     json!({"seed": seed, "ops": hist.iter().map(|o| o.json()).collect::<Vec<_>>()})
 }
 
+/// One operation on an entry of which copies exist: the clone taken before, an entry overwritten
+/// with clone_from afterwards, the same calls on Summary::default(), the call on a second clone.
+fn check_copies(t: &mut Tally, seed: &str, op: &Op, other_op: &Op) {
+    t.states += 1;
+    t.transitions += 4;
+    let Some((mut real, mut model)) = build(seed, &[], t) else { return };
+    let hj = |what: &str| json!({"seed": seed, "ops": [op.json()], "copy": what, "other": other_op.json()});
+    let r = guard(|| {
+        let keep = real.clone();
+        op.apply_real(&mut real);
+        let mut other = Summary::new();
+        other_op.apply_real(&mut other);
+        other.clone_from(&real);
+        let mut dflt = Summary::default();
+        for o in seed_ops(seed) {
+            o.apply_real(&mut dflt);
+        }
+        op.apply_real(&mut dflt);
+        let mut late = keep.clone();
+        op.apply_real(&mut late);
+        (keep, other, dflt, late)
+    });
+    let before = model.clone();
+    op.apply_model(&mut model);
+    match r {
+        Ok((keep, other, dflt, late)) => {
+            let _ = check_state(t, &real, &model, &|| hj("the object the call was made on, a clone being alive"))
+                && check_state(t, &keep, &before, &|| hj("the clone taken before the call"))
+                && check_state(t, &other, &model, &|| hj("another entry overwritten with clone_from"))
+                && check_state(t, &dflt, &model, &|| hj("the same calls on Summary::default()"))
+                && check_state(t, &late, &model, &|| hj("the call made on a clone of the clone"));
+        }
+        Err(m) => t.violation(Violation::new("history", hj("clone / clone_from / default"), json!("returns"), json!(format!("panic: {}", m)), "copying an entry panicked")),
+    }
+}
+
 fn replay(doc: &Value) -> Option<Violation> {
     let c = &doc["case"];
+    if c["copy"].is_string() {
+        let mut t = Tally::new();
+        let ops: Vec<Op> = c["ops"].as_array().map(|a| a.iter().filter_map(Op::from_json).collect()).unwrap_or_default();
+        if let (Some(op), Some(other)) = (ops.first(), Op::from_json(&c["other"])) {
+            check_copies(&mut t, c["seed"].as_str().unwrap_or("empty"), op, &other);
+        }
+        return t.violations.into_iter().next();
+    }
     let seed = c["seed"].as_str().unwrap_or("empty").to_string();
     let hist: Vec<Op> = c["ops"].as_array().map(|a| a.iter().filter_map(Op::from_json).collect()).unwrap_or_default();
     let mut t = Tally::new();
@@ -405,6 +449,20 @@ fn main() {
                         break;
                     }
                 }
+            }
+        }
+        run.merge(t);
+    }
+    // copies: a clone taken before a call is not affected by it (and keeps the call's object
+    // unaffected while it is alive), an object overwritten with clone_from behaves like its
+    // source, and an entry started from Default::default() behaves like one from new()
+    {
+        let menu = ops(true);
+        run.bound(format!("copies: 3 seeds x {} operations: clone before the call (both objects checked, then the clone called too), clone_from into an object with other contents, Default::default() as the starting point", menu.len()));
+        let mut t = Tally::new();
+        for seed in ["empty", "minimal", "full"] {
+            for (oi, op) in menu.iter().enumerate() {
+                check_copies(&mut t, seed, op, &menu[(oi + 7) % menu.len()]);
             }
         }
         run.merge(t);
